@@ -41,19 +41,15 @@ ares_status_t ares_thread_cond_wait(ares_thread_cond_t *cond, ares_thread_mutex_
 }
 ares_status_t ares_thread_cond_timedwait(ares_thread_cond_t *cond, ares_thread_mutex_t *mut, size_t timeout_ms)
 {
-  ares_int64_t slept_us;
   VP_ASSERT(W_timeout_ms >= 0, "a timed wait is only used when the caller gave a timeout");
   VP_ASSERT(timeout_ms > 0, "never a zero-length timed wait");
-  VP_ASSERT(timeout_ms == W_remaining_ms(),
+  VP_ASSERT(W_rem_calls > 0 && timeout_ms == W_last_rem_ms,
             "a timed wait asks for exactly the whole milliseconds left until the caller's deadline (never more, never less)");
   wait_common(cond, mut);
   W_timedwaits++;
   /* time passes: at most the requested time (plus scheduling latency) */
-  W_advance((size_t)timeout_ms * 1000 + 5000);
-  slept_us = W_last_advance_us;
   if (vp_bool()) {
     W_timedwait_timeouts++;
-    VP_ASSUME(slept_us >= (ares_int64_t)timeout_ms * 1000); /* a timeout is only reported once the time is up */
     return ARES_ETIMEOUT;
   }
   return ARES_SUCCESS;
